@@ -98,6 +98,7 @@ def run(repo, run, tier):
     newton(repo, run, rule_id="C10.5")
     kick_mask_plumbing(repo, run)
     kick_mask_dataflow(repo, run)
+    default_mask(repo, run)
 
 
 def shear_shape(repo, run, r4, upd, stepfn, dcol, kcol):
@@ -407,3 +408,134 @@ def kick_mask_dataflow(repo, run):
     run.judged(rid, "kick_mask = conversion of self.staggered_mask: %s" % [src(k)[:80] for k in km], ok=ok3)
     if not ok3:
         run.report("C10.7", ITY, km[0] if km else init, "kick_mask is not an elementwise conversion of self.staggered_mask", text="kick_mask binding")
+
+
+# ------------------------------------------------------------------------------------------------
+def default_mask(repo, run):
+    """'for all kick masks' includes the documented default (no mask given: the latter half of the variables along the leading axis are the momenta).  On
+    the path `staggered_mask is None` the statements that build self.staggered_mask are interpreted over index SETS of the leading axis for n = 2..9
+    leading entries: the set of entries switched on must be {n//2, ..., n-1}."""
+    import ast as _ast
+    from ..front import walk_no_nested, is_self_attr, src, fname, const_value
+    rid = run.rule("C10.8", "default kick mask (no mask given): interpreting the statements of that path over index sets of the leading axis for n = 2..9, the entries "
+                            "switched on are exactly n//2 .. n-1 (the latter half are the kick variables)", floor=8)
+    ITY = extract.ITYPES
+    init = repo.get(ITY, extract.SPLIT + ".__init__")
+    P = "staggered_mask"
+    dimp = [a.arg for a in init.args.args][1]
+    branch = None
+    for st in init.body:
+        if isinstance(st, _ast.If):
+            t = src(st.test).replace(" ", "")
+            if t in ("%sisNone" % P,):
+                branch = st.body
+            elif t in ("%sisnotNone" % P,):
+                branch = st.orelse
+    if not branch:
+        raise AnalysisError("ExplicitSymplecticIntegrator.__init__: the `staggered_mask is None` path was not found")
+
+    class Unknown(Exception):
+        pass
+
+    def ev(e, n, env):
+        """integer, or frozenset of leading-axis indices"""
+        if isinstance(e, _ast.Constant) and isinstance(e.value, (int, bool)):
+            return int(e.value)
+        if isinstance(e, _ast.Constant) and e.value is None:
+            return None
+        if isinstance(e, _ast.Name):
+            if e.id in env:
+                return env[e.id]
+            raise Unknown(e.id)
+        if isinstance(e, _ast.Subscript) and isinstance(e.value, _ast.Name) and e.value.id == dimp:
+            if ev(e.slice, n, env) == 0:
+                return n
+            raise Unknown(src(e))
+        if isinstance(e, _ast.Call) and fname(e) == "len" and len(e.args) == 1:
+            raise Unknown(src(e))
+        if isinstance(e, _ast.BinOp):
+            l, r = ev(e.left, n, env), ev(e.right, n, env)
+            if isinstance(l, int) and isinstance(r, int):
+                if isinstance(e.op, _ast.FloorDiv):
+                    return l // r
+                if isinstance(e.op, _ast.Add):
+                    return l + r
+                if isinstance(e.op, _ast.Sub):
+                    return l - r
+                if isinstance(e.op, _ast.Mult):
+                    return l * r
+                if isinstance(e.op, _ast.RShift):
+                    return l >> r
+            raise Unknown(src(e))
+        if isinstance(e, _ast.UnaryOp) and isinstance(e.op, _ast.USub):
+            return -ev(e.operand, n, env)
+        if isinstance(e, _ast.Call) and fname(e) in ("arange", "range"):
+            a = [ev(x, n, env) for x in e.args]
+            a = a if len(a) > 1 else [0] + a
+            return frozenset(range(*a))
+        if isinstance(e, _ast.Call) and fname(e) == "slice":
+            a = [ev(x, n, env) for x in e.args]
+            return frozenset(range(n)[slice(*a)])
+        if isinstance(e, _ast.Slice):
+            return frozenset(range(n)[slice(*(None if x is None else ev(x, n, env) for x in (e.lower, e.upper, e.step)))])
+        if isinstance(e, (_ast.List, _ast.Tuple)):
+            return frozenset(ev(x, n, env) for x in e.elts)
+        if isinstance(e, _ast.Call) and fname(e) in ("asarray", "array", "astype") and e.args:
+            return ev(e.args[0], n, env)
+        raise Unknown(src(e)[:60])
+
+    def wrap(i, n):
+        return i + n if i < 0 else i
+    run.analysed_fn(ITY, init)
+    for n in range(2, 10):
+        env, on = {}, None
+        try:
+            for st in branch:
+                if isinstance(st, _ast.Assign) and len(st.targets) == 1:
+                    t = st.targets[0]
+                    if isinstance(t, _ast.Name):
+                        try:
+                            env[t.id] = ev(st.value, n, env)
+                        except Unknown:
+                            env.pop(t.id, None)
+                    elif is_self_attr(t, P):
+                        f = fname(st.value) if isinstance(st.value, _ast.Call) else None
+                        if f in ("zeros", "zeros_like"):
+                            on = set()
+                        elif f in ("ones", "ones_like"):
+                            on = set(range(n))
+                        else:
+                            raise Unknown("mask initialised by `%s`" % src(st.value)[:50])
+                    elif isinstance(t, _ast.Subscript) and is_self_attr(t.value, P):
+                        if on is None:
+                            raise Unknown("store into the mask before it exists")
+                        sl = t.slice.elts[0] if isinstance(t.slice, _ast.Tuple) else t.slice
+                        if isinstance(sl, _ast.Constant) and sl.value is Ellipsis:
+                            idx = frozenset(range(n))
+                        else:
+                            idx = ev(sl, n, env)
+                        idx = {wrap(idx, n)} if isinstance(idx, int) else {wrap(i, n) for i in idx}
+                        val = st.value.value if isinstance(st.value, _ast.Constant) and isinstance(st.value.value, bool) else const_value(st.value)
+                        on = (on | idx) if val else (on - idx)
+                    else:
+                        raise Unknown("statement `%s`" % src(st)[:50])
+                elif isinstance(st, (_ast.Expr, _ast.Pass)):
+                    continue
+                else:
+                    raise Unknown("statement kind %s" % type(st).__name__)
+            if on is None:
+                raise Unknown("the mask is never built on this path")
+        except Unknown as e:
+            raise AnalysisError("ExplicitSymplecticIntegrator.__init__: the default-mask path is outside the index-set domain (%s)" % e)
+        except (ValueError, TypeError) as e:
+            raise AnalysisError("ExplicitSymplecticIntegrator.__init__: the default-mask path could not be interpreted (%r)" % (e,))
+        want = set(range(n // 2, n))
+        ok = on == want
+        run.judged(rid, "n = %d: kick entries %s" % (n, sorted(on)), ok=ok)
+        if not ok:
+            stores = [st for st in branch if isinstance(st, _ast.Assign) and isinstance(st.targets[0], _ast.Subscript)]
+            run.report("C10.8", ITY, stores[-1] if stores else init, "with no kick mask given and %d entries along the leading axis the default mask switches on the entries %s, not the "
+                       "latter half %s: the remaining momenta are advanced in the drift stages from the same right-hand-side evaluation as their positions, which is "
+                       "not a composition of shears (not symplectic, not reversible) for 2 or more degrees of freedom" % (n, sorted(on), sorted(want)),
+                       text="default kick mask")
+            break
